@@ -1,0 +1,15 @@
+//go:build verif
+
+// Contracts for the verif build tag: comment-only, read by /verif/engine (govc).
+package ratelimit
+
+//@ # ---- C16: the limiter store is a bounded map whose insert never evicts the key it is writing: room is made BEFORE the
+//@ # new key is stored (the eviction runs while the key is still absent, so it can only pick another key), at most one
+//@ # eviction per insert, and the limiter handed back is the one that was stored under the key
+//@ func (*LimiterStore).Get
+//@   abstract
+//@   nosafety all pre
+//@   assert at call (*middleware/ratelimit.LimiterStore).evictOne#1: calls("(*middleware/ratelimit.LimiterStore).evictOne") == 0 && calls("golang.org/x/time/rate.NewLimiter") == 0
+//@   assert at mapupdate#1: key == entry_key && calls("(*middleware/ratelimit.LimiterStore).evictOne") <= 1
+//@   assert at call golang.org/x/time/rate.NewLimiter#1: calls("golang.org/x/time/rate.NewLimiter") == 0
+//@   assert at return#3: calls("(*middleware/ratelimit.LimiterStore).evictOne") <= 1
